@@ -1870,6 +1870,9 @@ impl Index<usize> for Vec3A {
     type Output = f32;
     #[inline]
     fn index(&self, index: usize) -> &Self::Output {
+        // the register has a fourth lane that is not part of the vector
+        assert!(index < 3, "index out of bounds");
+
         &self.0[index]
     }
 }
@@ -1877,6 +1880,9 @@ impl Index<usize> for Vec3A {
 impl IndexMut<usize> for Vec3A {
     #[inline]
     fn index_mut(&mut self, index: usize) -> &mut Self::Output {
+        // the register has a fourth lane that is not part of the vector
+        assert!(index < 3, "index out of bounds");
+
         &mut self.0[index]
     }
 }
